@@ -19,14 +19,20 @@ def combine_disambiguation_total(chk, rid):
   another one by injection)."""
   repo = chk.repo
   dcv = FnView(repo, 'rule_translate.DisambiguateCombineVariables')
-  worker = repo.func('rule_translate.DisambiguateCombineVariables.Replace')
-  wcalls = [n for n, c in dcv.all_calls() if worker.fq in repo.resolve(dcv.fi, c) or
-            call_tail(c) == worker.name]
+  worker = K.combine_disambiguator(repo)
+  if worker.fq == dcv.fi.fq:
+    # the renaming is done by a loop of DisambiguateCombineVariables itself
+    # (recursion written with an explicit stack): that loop is the work
+    wcalls = [n for n, c in dcv.all_calls() if call_tail(c) == 'AllocateVar']
+  else:
+    wcalls = [n for n, c in dcv.all_calls() if worker.fq in repo.resolve(dcv.fi, c) or
+              call_tail(c) == worker.name]
   heads = set()
   for n in wcalls:
-    for h, pol in dcv.cfg.header_of(n):
-      if isinstance(dcv.cfg.stmt[h], ast.For):
-        heads.add(h)
+    hs = [h for h, pol in dcv.cfg.header_of(n)
+          if isinstance(dcv.cfg.stmt[h], (ast.For, ast.While))]
+    if hs:
+      heads.add(hs[0])       # the outermost loop the work sits in
   if not heads:
     raise AnalysisError('DisambiguateCombineVariables: loop over the sub-combines not found')
   chk.ob(rid, dcv.cfg.must_pass_before(dcv.cfg.exit, heads), None,
